@@ -421,8 +421,12 @@ def fallible_calls(body, extra_callee_pred=None):
     return out
 
 
-def rule_errd(bodies, rule='ERRD', exceptions=None, extra_callee_pred=None, only=None):
-    """one obligation per fallible call site in `bodies`"""
+def rule_errd(bodies, rule='ERRD', exceptions=None, extra_callee_pred=None, only=None, lookup_miss=None):
+    """one obligation per fallible call site in `bodies`.
+    lookup_miss(call) -> True for a call whose failure means "no such entry" (a registry lookup): a body that itself
+    cannot fail (its result type is not a Result / Option) may answer such a miss with a sentinel — the forms
+    `if r.is_err() { return S }`, `match r { Err(_) => S, .. }`, `r.map_or(S, ..)`, `let Ok(x) = r else { return S }` are
+    the same program"""
     exceptions = exceptions or {}
     obs = []
     for body in bodies:
@@ -448,6 +452,9 @@ def rule_errd(bodies, rule='ERRD', exceptions=None, extra_callee_pred=None, only
                 obs.append(ok(rule, key, 'result of %s is %s, but the constructor is total: %s' % (ck, cls, TOTAL_CTORS[ck]), c.where(), cls='total'))
             elif cls in ACCEPT:
                 obs.append(ok(rule, key, 'result of %s is %s (%s)' % (ck, cls, detail), c.where(), cls=cls))
+            elif cls in ('match-swallow', 'defaulted') and lookup_miss is not None and lookup_miss(c) \
+                    and not body.locals[0]['ty'].startswith(('std::result::Result<', 'std::option::Option<')):
+                obs.append(ok(rule, key, 'a miss of the lookup %s is answered with a sentinel by a body that cannot fail itself (%s)' % (ck, cls), c.where(), cls='lookup-miss'))
             elif exk in exceptions and exceptions[exk][0] == cls:
                 obs.append(assumed(rule, key, 'result of %s is %s — confirmed exception: %s' % (ck, cls, exceptions[exk][1]), c.where(), cls=cls))
             else:
